@@ -183,3 +183,38 @@ Fixpoint list_run (l : list (list Z)) (ops : list plop) : list plout :=
   | [] => []
   | op :: t => let '(l', o) := list_step l op in o :: list_run l' t
   end.
+
+(* ---------------------------------------------------------------- ownership vocabulary (iwlist owns a malloc'ed copy per item) *)
+(* iwlist_destroy_keep: the blocks passed to free() - the val pointers of the slots start .. start+num-1, in order *)
+Definition pl_destroy (l : plist) : list slot := s_slice (pl_arr l) (pl_start l) (pl_num l).
+
+(* what a call, judged by its arguments and its answer, hands to the caller (who owns and frees the block from then on) *)
+Definition pl_handed (op : plop) (o : plout) : list (list Z) :=
+  match op, o with
+  | PLPop, PLOVal PL_OK (Some v) => [v]
+  | PLShift, PLOVal PL_OK (Some v) => [v]
+  | PLRemove _, PLOVal PL_OK (Some v) => [v]
+  | _, _ => []
+  end.
+Definition pl_handed_run (ops : list plop) (outs : list plout) : list (list Z) :=
+  flat_map (fun p => pl_handed (fst p) (snd p)) (combine ops outs).
+
+(* on the reference list l: the byte string a call stores into a block of the list (a new block for push / unshift / insert, the
+   block already there for set), and the old content that set overwrites in place *)
+Definition pl_stored_step (l : list (list Z)) (op : plop) : list (list Z) :=
+  match op with
+  | PLPush d => [d]
+  | PLUnshift d => [d]
+  | PLInsert i d => if (length l <? i) then [] else [d]
+  | PLSet i d => if (length l <=? i) then [] else [d]
+  | _ => []
+  end.
+Definition pl_overwritten_step (l : list (list Z)) (op : plop) : list (list Z) :=
+  match op with
+  | PLSet i d => if (length l <=? i) then [] else [nth i l []]
+  | _ => []
+  end.
+Fixpoint pl_stored_run (l : list (list Z)) (ops : list plop) : list (list Z) :=
+  match ops with [] => [] | op :: t => pl_stored_step l op ++ pl_stored_run (fst (list_step l op)) t end.
+Fixpoint pl_overwritten_run (l : list (list Z)) (ops : list plop) : list (list Z) :=
+  match ops with [] => [] | op :: t => pl_overwritten_step l op ++ pl_overwritten_run (fst (list_step l op)) t end.
